@@ -32,7 +32,8 @@ Theorem aelim_run o tol a r t : mir_ne o -> arena_tree a r t -> wne t ->
     m_k c = snd (elim o tol t) /\
     ae_final (m_rem c) (m_ar c) = Some a' /\
     arena_tree a' r (fst (elim o tol t)) /\
-    (forall j, ~ In j (idxs t) -> aget a' j = aget a j).
+    (forall j, ~ In j (idxs t) -> aget a' j = aget a j) /\
+    (forall j, In j (idxs t) -> ~ In j (idxs (fst (elim o tol t))) -> aget a' j = None).
 Proof.
   intros Hm [Hr [Hw Hnd]] Hwne. destruct t as [|i lf p s0 c0 c1]; [discriminate|]. cbn [cidx] in Hr. inversion Hr; subst i. clear Hr.
   destruct (elim2 o tol true [] s0 (CN r lf p s0 c0 c1) k0) as [[[u rr] k'] es] eqn:E2.
@@ -44,10 +45,10 @@ Proof.
     as [n [A' [ps' [lp' [Hrun [Hn [_ [Wu [Hdead Hfr]]]]]]]]].
   cbn [post_ctx] in Hfr. cbn [app] in Hrun.
   destruct (elim2_shape o tol _ _ _ _ _ _ _ _ _ E2) as [SU [SR _]].
-  destruct (final_realises o tol _ _ _ _ _ _ _ _ _ E2 Hnd A' None Wu Hdead) as [A'' [Hfin [Wr Hfr2]]].
+  destruct (final_realises o tol _ _ _ _ _ _ _ _ _ E2 Hnd A' None Wu Hdead) as [A'' [Hfin [Wr [Hfr2 Gn]]]].
   destruct (elim2_sub o tol _ _ _ _ _ _ _ _ _ E2) as [_ [_ Xr]].
   exists (mk A' ps' [] lp' (length ps') k' es), A''.
-  split; [|split; [reflexivity|]; split; [exact Hfin|]; split].
+  split; [|split; [reflexivity|]; split; [exact Hfin|]; split; [|split]].
   - intros f Hf.
     assert (Hstart : steps o tol r 1 (ae_init a r) (mk a (rev []) (kstack (length (@nil (vec * Qc))) c0 c1 []) (nkids c0 c1) (length (@nil (vec * Qc))) k0 [])).
     { apply steps_one. cbn [wfn] in Hw. erewrite step_root; [reflexivity | apply Hw]. }
@@ -58,17 +59,21 @@ Proof.
     + rewrite Xr. eapply elim2_root_idx; eauto.
     + exact Wr.
     + apply SR. apply SU. exact Hnd.
-  - intros j Hj. rewrite Hfr2 by exact Hj. apply Hfr. exact Hj.
+  - intros j Hj. rewrite Hfr2 by (intros C; apply Hj; eapply sub_in; eauto). apply Hfr. exact Hj.
+  - intros j Hj Hnj. destruct (in_dec Nat.eq_dec j (idxs u)) as [Hu|Hu].
+    + apply Gn; assumption.
+    + rewrite Hfr2 by exact Hu. apply Hdead; assumption.
 Qed.
 
 (* the refinement theorem *)
 Theorem aelim_refines o tol a r t : mir_ne o -> arena_tree a r t -> wne t ->
   exists a', aelim o tol a r = Some (a', snd (elim o tol t)) /\
              arena_tree a' r (fst (elim o tol t)) /\
-             (forall j, ~ In j (idxs t) -> aget a' j = aget a j).
+             (forall j, ~ In j (idxs t) -> aget a' j = aget a j) /\
+             (forall j, In j (idxs t) -> ~ In j (idxs (fst (elim o tol t))) -> aget a' j = None).
 Proof.
-  intros Hm Ht Hw. destruct (aelim_run o tol a r t Hm Ht Hw) as [c [a' [Hl [Hk [Hf [Ha Hfr]]]]]].
-  exists a'. split; [|split; assumption]. unfold aelim. rewrite Hl.
+  intros Hm Ht Hw. destruct (aelim_run o tol a r t Hm Ht Hw) as [c [a' [Hl [Hk [Hf [Ha [Hfr Hgn]]]]]]].
+  exists a'. split; [|split; [|split]; assumption]. unfold aelim. rewrite Hl.
   - rewrite Hf, Hk. reflexivity.
   - destruct Ht as [_ [Hwf Hnd]]. pose proof (wfn_size_bound a t None Hwf Hnd). lia.
 Qed.
